@@ -1,7 +1,7 @@
 (* C09  Buying power: orders are covered by cash, reserved cash is conserved. *)
 From RQ Require Import Model.Num Model.Account Model.Reserve Proofs.NumFacts Proofs.ReserveFacts.
 From RQ Require Import Model.Broker Proofs.BrokerFacts Gen.BrokerProg.
-From RQ Require Import Model.Matcher Model.Order Proofs.OrderFacts Proofs.ComposeFacts.
+From RQ Require Import Model.Matcher Model.Order Proofs.OrderFacts Proofs.ComposeFacts Proofs.ComposeManyFacts.
 Open Scope Q_scope.
 
 (* For every protocol-conforming interleaving of submissions, fills and terminal announcements of any number of
@@ -36,6 +36,27 @@ Theorem C09_protocol_discharged_by_lifecycle : forall id qty reserve ins, 0 < qt
   (os_status o <> Active -> rs_frozen (fold_left rstep evs s0) == 0) /\
   (os_status o = Active -> rs_frozen (fold_left rstep evs s0) == (qty - os_filled o) / qty * reserve).
 Proof. exact lifecycle_discharges_reserve_protocol. Qed.
+(* ... and for ANY number of orders and ANY interleaving of their lives (a list of (order id, input) pairs): the whole event stream the
+   account hears is a conforming run, reserved cash is the sum over the open orders of the unfilled fraction of their reserves, never
+   negative, and zero - with an empty book - whenever no order is open.  No protocol assumption is left in C09. *)
+Theorem C09_every_interleaving : forall qtys reserves l, (forall k, 0 < qtys k) -> (forall k, 0 <= reserves k) ->
+  let os0 := fun k => fresh_order (qtys k) in
+  let s0 := {| rs_frozen := 0; rs_book := [] |} in
+  gins_ok os0 l ->
+  let evs := gevs qtys reserves os0 l in
+  let sf := fold_left rstep evs s0 in
+  wf_run s0 evs /\ RInv sf /\ 0 <= rs_frozen sf /\
+  ((forall k, os_status (gfinal os0 l k) <> Active) -> rs_book sf = [] /\ rs_frozen sf == 0).
+Proof. exact interleaved_lifecycles_discharge_the_protocol. Qed.
+Example C09_interleaving_example :
+  let qtys := fun k : nat => 1000 in let reserves := fun k : nat => 10008 in
+  let l := [(1%nat, ISubmit false); (2%nat, ISubmit false); (1%nat, IMatch (Filled 10 300 0 false) 3); (2%nat, ICancel);
+            (1%nat, IAfterTrading)] in
+  gins_ok (fun k => fresh_order (qtys k)) l /\
+  gevs qtys reserves (fun k => fresh_order (qtys k)) l =
+    [RPendingNew (mk 1 1000 10008 0); RPendingNew (mk 2 1000 10008 0); RTrade 1 300; RTerminal 2; RTerminal 1].
+Proof. cbv zeta. split; [|vm_compute; reflexivity]. cbn. repeat split; try exact I; try discriminate; vm_compute; try reflexivity; discriminate. Qed.
+
 (* non-vacuity: submitted in the auction, a partial fill of 300, a bar without a match, a second fill whose rest is cancelled *)
 Example C09_composition_example :
   let ins := [ISubmit true; IMatch (Filled 10 300 0 false) 3; IMatch NoMatch 0; IMatch (Filled 10 500 0 true) 5] in
@@ -70,3 +91,4 @@ Print Assumptions C09_release_terminal.
 Print Assumptions C09_no_overdraft_step.
 Print Assumptions C09_code_broker_is_model.
 Print Assumptions C09_protocol_discharged_by_lifecycle.
+Print Assumptions C09_every_interleaving.
